@@ -237,16 +237,172 @@ macro_rules! rt {
 }
 rt!(sna_rt_48k_same, ZXMachine::Sinclair48K, false, 0);
 rt!(sna_rt_48k_fresh, ZXMachine::Sinclair48K, true, 0);
-rt!(sna_rt_128k_same_b0, ZXMachine::Sinclair128K, false, 0);
-rt!(sna_rt_128k_same_b1, ZXMachine::Sinclair128K, false, 1);
-rt!(sna_rt_128k_same_b2, ZXMachine::Sinclair128K, false, 2);
-rt!(sna_rt_128k_same_b3, ZXMachine::Sinclair128K, false, 3);
-rt!(sna_rt_128k_same_b4, ZXMachine::Sinclair128K, false, 4);
-rt!(sna_rt_128k_same_b5, ZXMachine::Sinclair128K, false, 5);
-rt!(sna_rt_128k_same_b6, ZXMachine::Sinclair128K, false, 6);
-rt!(sna_rt_128k_same_b7, ZXMachine::Sinclair128K, false, 7);
-rt!(sna_rt_128k_fresh_b0, ZXMachine::Sinclair128K, true, 0);
-rt!(sna_rt_128k_fresh_b5, ZXMachine::Sinclair128K, true, 5);
+
+
+// ------------------------------------------------------------------------------------------
+// 128K: the page accessors are replaced by stand-ins over 8 x 4-byte "pages" (the real 128 KiB
+// arrays with a symbolic paging state did not fit into memory: > 20 GB per CBMC process).
+// What the stand-ins assume - a page accessor returns the bytes of exactly the requested bank -
+// is proved by K-core::memory::page_slices. With them the paging latch is fully symbolic.
+static mut VPAGES: [[u8; 4]; 8] = [[0; 4]; 8];
+pub fn page_stub(_m: &crate::zx::memory::ZXMemory, page: u8) -> &[u8] {
+    unsafe { &VPAGES[(page & 7) as usize][..] }
+}
+pub fn page_mut_stub(_m: &mut crate::zx::memory::ZXMemory, page: u8) -> &mut [u8] {
+    unsafe { &mut VPAGES[(page & 7) as usize][..] }
+}
+
+pub struct VFile4 {
+    pub hdr: [u8; 27],
+    pub tail: [u8; 4],
+    pub tail_pos: usize,
+    pub len: usize,
+    pub pos: usize,
+    pub pages: [[u8; 4]; 9],
+    pub page_pos: [usize; 9],
+    pub n_pages: usize,
+    pub n_tails: usize,
+    pub bad_write: bool,
+}
+impl DataRecorder for &mut VFile4 {
+    fn write(&mut self, buf: &[u8]) -> R<usize> {
+        let n = buf.len();
+        if self.pos == 0 && n == 27 {
+            self.hdr.copy_from_slice(buf);
+        } else if n == 4 && self.n_pages == 3 && self.n_tails == 0 {
+            // the secondary header comes after the three head banks
+            self.tail.copy_from_slice(buf);
+            self.tail_pos = self.pos;
+            self.n_tails = 1;
+        } else if n == 4 && self.n_pages < 9 {
+            self.pages[self.n_pages].copy_from_slice(buf);
+            self.page_pos[self.n_pages] = self.pos;
+            self.n_pages += 1;
+        } else {
+            self.bad_write = true;
+        }
+        self.pos += n;
+        self.len = self.pos;
+        Ok(n)
+    }
+}
+impl SeekableAsset for &mut VFile4 {
+    fn seek(&mut self, pos: SeekFrom) -> R<usize> {
+        // file offsets of the real format (16 KiB pages) are translated to this file's 4-byte pages
+        self.pos = match pos {
+            SeekFrom::Start(49179) => self.tail_pos,
+            SeekFrom::Start(49183) => self.tail_pos + 4,
+            SeekFrom::Start(p) => p,
+            SeekFrom::End(_) => 131103, // reported size: a 128K snapshot
+            SeekFrom::Current(p) => (self.pos as isize + p) as usize,
+        };
+        Ok(self.pos)
+    }
+}
+impl LoadableAsset for &mut VFile4 {
+    fn read(&mut self, buf: &mut [u8]) -> R<usize> {
+        let n = buf.len();
+        if self.pos == 0 && n == 27 {
+            buf.copy_from_slice(&self.hdr);
+        } else if self.pos == self.tail_pos && n == 4 {
+            buf.copy_from_slice(&self.tail);
+        } else if n == 4 {
+            let mut i = 0;
+            while i < 9 {
+                if self.page_pos[i] == self.pos {
+                    buf.copy_from_slice(&self.pages[i]);
+                }
+                i += 1;
+            }
+        }
+        self.pos += n;
+        Ok(n)
+    }
+}
+
+fn roundtrip_128k(fresh_receiver: bool) {
+    let machine = ZXMachine::Sinclair128K;
+    let mut e = Emulator::<VHost>::new(settings(machine, false, false, false), VContext).ok().unwrap();
+    let mut v: VRegs = kani::any();
+    v.sp = 0x8000;
+    let im: u8 = kani::any();
+    kani::assume(im < 3);
+    e.verif_cpu().regs.verif_set(&v);
+    e.verif_cpu().set_im(im);
+    let border: u8 = kani::any();
+    kani::assume(border < 8);
+    e.verif_ctl().set_border_color(0, ZXColor::from_bits(border));
+    let latch: u8 = kani::any();
+    e.verif_ctl().write_7ffd(latch);
+    let content: [[u8; 4]; 8] = kani::any();
+    unsafe { VPAGES = content; }
+
+    let mut file = VFile4 { hdr: [0; 27], tail: [0; 4], tail_pos: usize::MAX, len: 0, pos: 0, pages: [[0; 4]; 9],
+                            page_pos: [usize::MAX; 9], n_pages: 0, n_tails: 0, bad_write: false };
+    let r = e.save_snapshot(SnapshotRecorder::Sna(&mut file));
+    kani::assert(r.is_ok(), "C13: save succeeds");
+    kani::assert(!file.bad_write, "C13.save writes header, three head banks, secondary header, remaining banks");
+    let paged = latch & 7;
+    kani::assert(file.n_pages == if paged == 5 || paged == 2 { 9 } else { 8 }, "C13.save stores every bank (5, 2, paged, then the rest)");
+    kani::assert(unsafe { VPAGES == content }, "C13.save leaves RAM");
+    kani::assert(e.verif_ctl().read_7ffd() == latch, "C13.save leaves the paging latch");
+    let after = e.verif_cpu().regs.verif_get();
+    kani::assert(after == v, "C13.save leaves the registers");
+
+    let mut e2 = if fresh_receiver {
+        Emulator::<VHost>::new(settings(machine, false, false, false), VContext).ok().unwrap()
+    } else {
+        let d: VRegs = kani::any();
+        e.verif_cpu().regs.verif_set(&d);
+        e.verif_cpu().halted = kani::any();
+        e.verif_cpu().skip_interrupt = kani::any();
+        e.verif_ctl().set_border_color(0, any_color());
+        let l2: u8 = kani::any();
+        e.verif_ctl().write_7ffd(l2); // may lock paging
+        e
+    };
+    unsafe { VPAGES = kani::any(); }
+
+    file.pos = 0;
+    let r = e2.load_snapshot(Snapshot::Sna(&mut file));
+    kani::assert(r.is_ok(), "C13: load of a saved snapshot succeeds");
+    let g = e2.verif_cpu().regs.verif_get();
+    kani::assert(g.a == v.a && g.f == v.f && g.b == v.b && g.c == v.c && g.d == v.d && g.e == v.e
+        && g.h == v.h && g.l == v.l, "C13.roundtrip main registers");
+    kani::assert(g.a_alt == v.a_alt && g.f_alt == v.f_alt && g.b_alt == v.b_alt && g.c_alt == v.c_alt
+        && g.d_alt == v.d_alt && g.e_alt == v.e_alt && g.h_alt == v.h_alt && g.l_alt == v.l_alt, "C13.roundtrip alternate registers");
+    kani::assert(g.ixh == v.ixh && g.ixl == v.ixl && g.iyh == v.iyh && g.iyl == v.iyl, "C13.roundtrip IX IY");
+    kani::assert(g.sp == v.sp && g.pc == v.pc, "C13.roundtrip SP PC");
+    kani::assert(g.i == v.i && g.r == v.r && g.iff2 == v.iff2, "C13.roundtrip I R IFF2");
+    kani::assert(e2.verif_cpu().verif_im() == im, "C13.roundtrip interrupt mode");
+    let b2: u8 = e2.verif_ctl().border_color.into();
+    kani::assert(b2 == border, "C13.roundtrip border colour");
+    kani::assert(e2.verif_ctl().read_7ffd() == latch, "C13.roundtrip paging latch incl. lock bit");
+    kani::assert(e2.verif_ctl().verif_paging_enabled() == (latch & 0x20 == 0), "C13.roundtrip paging lock state");
+    kani::assert(unsafe { VPAGES == content }, "C13.roundtrip every RAM bank comes back into the same bank");
+    kani::assert(!e2.verif_cpu().halted && e2.verif_cpu().verif_active_prefix() == 0 && !e2.verif_cpu().skip_interrupt,
+        "C13.receiver halt / prefix / EI shadow does not survive the load");
+    kani::cover!(paged == 5);
+    kani::cover!(paged == 0 && latch & 0x20 != 0);
+}
+
+macro_rules! rt128 {
+    ($name:ident, $fresh:expr) => {
+        #[kani::proof]
+        #[kani::unwind(34)]
+        #[kani::stub(libm::sqrt, sqrt_stub)]
+        #[kani::stub(crate::zx::sound::mixer::ZXMixer::process, mixer_process_stub)]
+        #[kani::stub(crate::zx::video::screen::ZXScreen::process_clocks, screen_process_clocks_stub)]
+        #[kani::stub(crate::zx::controller::ZXController::refresh_memory_dependent_devices, refresh_stub)]
+        #[kani::stub(crate::zx::memory::ZXMemory::ram_page_data, page_stub)]
+        #[kani::stub(crate::zx::memory::ZXMemory::ram_page_data_mut, page_mut_stub)]
+        fn $name() {
+            roundtrip_128k($fresh);
+        }
+    };
+}
+rt128!(sna_rt128_same, false);
+rt128!(sna_rt128_fresh, true);
 
 #[kani::proof]
 #[kani::unwind(10)]
